@@ -327,8 +327,8 @@ func runC02(seed int64, n int, tier string) *Result {
 	res := &Result{
 		Prop:     "C02",
 		Requires: []string{"Packet.Writer", "Node.Tracer", "Node.CheckTracer"},
-		CaseType: "c2ccase",
-		OkFn:     "c2ok_close",
+		CaseType: "c2any",
+		OkFn:     "c2ok_any",
 		Rule: "tracer level: a real packet.Tracer with 1-2 readers (fed by real upstream writers) and 1-4 writers (each with or without a downstream reader); 8-32 calls chosen at random among " +
 			"the next call of each forward loop (Read; Link of 0-4 derived packets; Write of each to its own writer, or Write(nil, request) when nothing is derived; with two readers also the many-to-one shape: one packet linked to the requests of both readers, then written) and the answers of downstream readers " +
 			"(payload, error, None) delivered through Tracer.Receive, in any interleaving (so answers arrive while a later request is between Read and Link); observed after every call: the answers handed to each reader (outbound hook), " +
@@ -339,11 +339,16 @@ func runC02(seed int64, n int, tier string) *Result {
 		g, in, fail, nt := tracerCase(r, res.Hist)
 		if fail == "" && i%4 == 0 {
 			rec := startTraceRec02()
+			lastNet02, lastNetIn02 = "", nil
 			fail = nodeCase(r, res.Hist)
 			recCases, recOps := rec.stop()
+			if fail == "" && lastNet02 != "" { // the same run through the network of specification nodes (Node/Network.v)
+				res.Cases = append(res.Cases, Case{Gallina: "(inr " + lastNet02 + ")", Input: lastNetIn02, Nontrivial: true})
+				res.Hist["network-cases"]++
+			}
 			if fail == "" {
 				for k, rc := range recCases { // what the real nodes did on their tracers, through the same checker
-					res.Cases = append(res.Cases, Case{Gallina: "(" + rc + ", None)", Input: map[string]any{"level": "recorded from a real node", "ops": recOps[k]}, Nontrivial: len(recOps[k]) > 6})
+					res.Cases = append(res.Cases, Case{Gallina: "(inl (" + rc + ", None))", Input: map[string]any{"level": "recorded from a real node", "ops": recOps[k]}, Nontrivial: len(recOps[k]) > 6})
 					res.Hist["recorded-tracers"]++
 					res.Hist["recorded-calls"] += len(recOps[k])
 				}
@@ -352,7 +357,7 @@ func runC02(seed int64, n int, tier string) *Result {
 		if fail == "" {
 			fail = readGroupCase(rand.New(rand.NewSource(seed*7919+int64(i))), res.Hist)
 		}
-		res.Cases = append(res.Cases, Case{Gallina: g, Input: in, Nontrivial: nt, OracleFail: fail})
+		res.Cases = append(res.Cases, Case{Gallina: "(inl " + g + ")", Input: in, Nontrivial: nt, OracleFail: fail})
 	}
 	return res
 }
@@ -765,7 +770,127 @@ func nodeCase(r *rand.Rand, hist map[string]int) (fail string) {
 			return fmt.Sprintf("node level (topology %d, wiring %v): request %d (payload %d) of %v was answered %s, expected %v; all answers %v", topo, w.wire, i, v, reqs, got[i], want, got)
 		}
 	}
+	if obs == nil {
+		lastNet02, lastNetIn02 = w.netCase(topo, reqs, got)
+	}
 	return ""
+}
+
+// ---- the same workflow run as a case for the network of specification nodes (Node/Network.v) ----
+// One model node per input of a real node, per sink and per unconnected output ("open end": the packet written there is
+// its own answer).  The labels give the derivations in creation order (so that the oldest unfinished request of a model
+// node is always the one the label speaks about): LIn for a source request, LProc for an action with the inputs it
+// derived packets for, and the own result of the nodes that derive nothing (sinks, open ends, a one-to-many node without
+// outputs, the input of a many-to-one node that does not complete its group).  The model computes the answers.
+var lastNet02 string
+var lastNetIn02 any
+
+func (w *nw02) netCase(topo int, reqs []int, got []string) (string, any) {
+	ids := map[string]int{}
+	next := 2 * len(w.kinds)
+	idOf := func(dest string) int {
+		var n int
+		var in string
+		if c, _ := fmt.Sscanf(dest, "%d.%s", &n, &in); c == 2 && !strings.HasPrefix(dest, "sink") && !strings.HasPrefix(dest, "open") {
+			if in == "in[1]" {
+				return 2*n + 1
+			}
+			return 2 * n
+		}
+		if id, ok := ids[dest]; ok {
+			return id
+		}
+		ids[dest] = next
+		next++
+		return next - 1
+	}
+	destOf := func(from string) string {
+		if to, ok := w.wire[from]; ok {
+			return to
+		}
+		return "open " + from
+	}
+	type mp struct {
+		dest  string
+		v     int
+		isErr bool
+		k     int
+	}
+	var labels, in []string
+	emit := func(id int, own string, tgts []int, what string) {
+		var ts []string
+		for _, t := range tgts {
+			ts = append(ts, fmt.Sprint(t))
+		}
+		labels = append(labels, fmt.Sprintf("NProc %d %s %s", id, own, gal.List(ts)))
+		in = append(in, fmt.Sprintf("%s: model node %d derives for %v", what, id, tgts))
+	}
+	for i, v := range reqs {
+		labels = append(labels, "NIn 0")
+		in = append(in, fmt.Sprintf("request %d", v))
+		// topology 2: which input completed the group at the many-to-one node is read off the real answer
+		var b, c int
+		firstCompletes := false
+		if topo == 2 {
+			o0, _ := fO2M(0, v, 0, true)
+			o1, _ := fO2M(0, v, 1, true)
+			b, _ = fO2O(1, o0, true)
+			c, _ = fO2O(2, o1, true)
+			down := sinkAnswerR(false, fM2O(b, c))
+			firstCompletes = got[i] == joinRendered([]string{down, rInt(c)}) && got[i] != joinRendered([]string{rInt(b), down})
+		}
+		queue := []mp{{dest: "0.in", v: v}}
+		for len(queue) > 0 {
+			p := queue[0]
+			queue = queue[1:]
+			id := idOf(p.dest)
+			self := rInt(p.v)
+			if p.isErr {
+				self = rErr(p.k)
+			}
+			switch {
+			case strings.HasPrefix(p.dest, "sink"):
+				emit(id, sinkAnswerR(p.isErr, p.v), nil, p.dest)
+			case strings.HasPrefix(p.dest, "open"):
+				emit(id, self, nil, p.dest)
+			default:
+				var n int
+				var port string
+				fmt.Sscanf(p.dest, "%d.%s", &n, &port)
+				switch w.kinds[n] {
+				case 1:
+					out, failed := fO2O(n, p.v, w.noFail)
+					q := mp{dest: destOf(fmt.Sprintf("%d.out", n)), v: out}
+					if failed {
+						q = mp{dest: destOf(fmt.Sprintf("%d.error", n)), isErr: true, k: n + 1}
+					}
+					emit(id, self, []int{idOf(q.dest)}, p.dest)
+					queue = append(queue, q)
+				case 2:
+					var tgts []int
+					for j := 0; j < 2; j++ {
+						if o, ok := fO2M(n, p.v, j, w.noFail); ok {
+							q := mp{dest: destOf(fmt.Sprintf("%d.out[%d]", n, j)), v: o}
+							tgts = append(tgts, idOf(q.dest))
+							queue = append(queue, q)
+						}
+					}
+					emit(id, self, tgts, p.dest)
+				default: // many-to-one: the input that completes the group derives the packet, the other is answered with its own packet
+					completes := (port == "in[0]") == firstCompletes
+					if completes {
+						q := mp{dest: destOf(fmt.Sprintf("%d.out", n)), v: fM2O(b, c)}
+						emit(id, self, []int{idOf(q.dest)}, p.dest)
+						queue = append(queue, q)
+					} else {
+						emit(id, self, nil, p.dest)
+					}
+				}
+			}
+		}
+	}
+	return fmt.Sprintf("(%d, %s, %s)", next, gal.List(labels), gal.List(got)),
+		map[string]any{"level": "network of specification nodes", "topology": topo, "wiring": fmt.Sprint(w.wire), "requests": reqs, "answers": got, "derivations": in}
 }
 
 // ---- ReadGroup (the many-to-one node's collector): 2-4 readers, packets arriving in any interleaving ----
